@@ -116,6 +116,24 @@ struct Acc {
     samples: Samples,
 }
 
+/// Child process of family (h): `c15-deep <shape> <depth> <pattern|lookahead>`; prints ok / err / panic.
+pub fn deep_child(args: &[String]) -> ! {
+    let shape = args[0].as_str();
+    let d: usize = args[1].parse().expect("depth");
+    let pat = match shape {
+        "groups" => format!("{}a{}", "(".repeat(d), ")".repeat(d)),
+        "alternations" => format!("{}a{}", "(a|".repeat(d), ")".repeat(d)),
+        "repetitions" => format!("{}a{}", "(".repeat(d), ")*".repeat(d)),
+        "classes" => format!("{}{}", "[a".repeat(d), "]".repeat(d)),
+        _ => format!("{}{}", "(a".repeat(d), ")".repeat(d)),
+    };
+    let cfg = if args[2] == "lookahead" { Cfg::single(vec![CPat::new("a", 0).with_la(true, &pat)]) } else { Cfg::single(vec![CPat::new(&pat, 0)]) };
+    let h = std::thread::Builder::new().stack_size(2 << 20).spawn(move || build_outcome(&cfg, false)).expect("spawn");
+    let r = h.join().unwrap_or("panic");
+    println!("{r}");
+    std::process::exit(0)
+}
+
 fn build_outcome(cfg: &Cfg, cached: bool) -> &'static str {
     match catch(|| if cached { cfg.build_cached().is_ok() } else { cfg.build_uncached().is_ok() }) {
         Ok(true) => "ok",
@@ -478,6 +496,60 @@ pub fn run(tier: Tier) -> ! {
             merge(&mut total, a);
         }
         fams.push(json!({"family": "(g) Unicode class names outside the documented list: 58 names Unicode knows (general categories, scripts, Any/Assigned/ASCII) and 16 it does not, as \\p{N}, \\P{N}, [\\p{N}], \\p{^N} (and \\pN for one-letter names): unknown names must be rejected; a known one that builds must denote its own property", "patterns": n, "exhaustive": true}));
+    }
+
+    // (h) deeply nested patterns. The conversions are recursive; whatever limit the library sets,
+    // a build on an ordinary thread (2 MiB stack, the default of spawned and test threads) ends
+    // with a scanner or an error. A stack overflow kills the process, so every build runs in a
+    // child process; "killed by a signal" and "panicked" are the violations, Ok/Err are both fine.
+    {
+        let depths: Vec<usize> = vec![50, 100, 200, 249, 250, 251, 300, 400, 500, 600, 800, 1000, 1023, 1024, 1025, 1500, 2000, 5000, 20000];
+        let shapes = ["groups", "alternations", "repetitions", "classes", "concat-groups"];
+        let items: Vec<(usize, &str, bool)> = depths.iter().flat_map(|d| shapes.iter().flat_map(move |s| [(*d, *s, false), (*d, *s, true)])).collect();
+        let exe = std::env::current_exe().expect("own path");
+        let accs = par_for(items.len(), 1, || Acc { samples: Samples::new(1), ..Default::default() }, |acc, i| {
+            let (depth, shape, as_lookahead) = items[i];
+            acc.n += 1;
+            let out = std::process::Command::new(&exe).args(["c15-deep", shape, &depth.to_string(), if as_lookahead { "lookahead" } else { "pattern" }]).stdout(std::process::Stdio::piped()).stderr(std::process::Stdio::null()).spawn().and_then(|mut child| {
+                // watchdog: 60 s
+                let start = std::time::Instant::now();
+                loop {
+                    if let Some(st) = child.try_wait()? {
+                        let mut o = String::new();
+                        use std::io::Read;
+                        if let Some(mut so) = child.stdout.take() {
+                            let _ = so.read_to_string(&mut o);
+                        }
+                        return Ok((Some(st), o));
+                    }
+                    if start.elapsed().as_secs() > 60 {
+                        let _ = child.kill();
+                        let _ = child.wait();
+                        return Ok((None, String::new()));
+                    }
+                    std::thread::sleep(std::time::Duration::from_millis(5));
+                }
+            });
+            let verdict = match &out {
+                Err(e) => refsem::evidence::machinery(&format!("cannot run the child process of family (h): {e}")),
+                Ok((None, _)) => "timeout".to_string(),
+                Ok((Some(st), o)) if st.success() => o.trim().to_string(),
+                Ok((Some(st), _)) => format!("killed ({st})"),
+            };
+            *acc.stats.entry(format!("deep:{shape}:{}", if verdict.starts_with("killed") { "killed" } else { verdict.as_str() })).or_default() += 1;
+            if verdict != "ok" && verdict != "err" {
+                acc.viol.add("", || Violation {
+                    key: String::new(),
+                    summary: format!("a {} of {depth} nested {shape}, built on a thread with a 2 MiB stack: {verdict}, expected a scanner or an error", if as_lookahead { "lookahead" } else { "pattern" }),
+                    replay: json!({"pattern_shape": shape, "depth": depth, "slot": if as_lookahead { "lookahead of pattern a" } else { "pattern" }, "call": "ScannerBuilder::build_uncached() on std::thread::Builder::new().stack_size(2 MiB)", "got": verdict, "expected": "Ok or Err", "how_to_build_the_pattern": "groups: '('*d + 'a' + ')'*d; alternations: '(a|'*d + 'a' + ')'*d; repetitions: '('*d + 'a' + ')*'*d; classes: '[a'*d + ']'*d; concat-groups: '(a'*d + ')'*d"}),
+                });
+            }
+        });
+        let n = items.len();
+        for a in accs {
+            merge(&mut total, a);
+        }
+        fams.push(json!({"family": "(h) nesting depths 50..20 000 (around 250 and 1 024 in steps of one) of groups, alternations, repetitions, bracket classes and concatenated groups, as pattern and as lookahead, each built in a child process on a thread with a 2 MiB stack: a scanner or an error, never a panic or a killed process", "patterns": n, "exhaustive": true}));
     }
 
     // (c) through the cache: classification independent of the cache, no panic poisons it
